@@ -3,6 +3,7 @@ pub mod runner;
 pub mod val;
 pub mod prog;
 pub mod gen;
+pub mod child;
 pub mod eng;
 pub mod store;
 
